@@ -631,7 +631,10 @@ def _c14_chunk(arg):
                 elif node.string != newstr:
                     r.fail(Failure('C14', 'set-string-not-readable', src, str(node.string), newstr))
             elif isinstance(e, D.TexNamedEnv) and len(node.contents) == 1 and \
-                    not isinstance(node.contents[0], TexNode) and len(e._contents) == 1 and not e.args:
+                    not isinstance(node.contents[0], TexNode) and not e.args and \
+                    sum(1 for c in e._contents if not str(c).isspace()) == 1:
+                # (body tokens that are blank are hidden by `contents`; the
+                # assignment replaces the WHOLE body)
                 a, b = span_of(node, src)
                 r.saw((src, k, 'string'))
                 r.count('op:set-string-env')
